@@ -71,7 +71,12 @@ func (e *Enc) callWithArgs(fr *Frame, st *State, c *ssa.CallCommon, in ssa.Instr
 	case *ssa.Builtin:
 		return e.builtin(fr, st, callee, c, args, pos)
 	case *ssa.Function:
-		return e.staticCall(fr, st, callee, args, nil, pos)
+		res := e.staticCall(fr, st, callee, args, nil, pos)
+		if key := funcKey(callee); len(e.P.CS.Protects) > 0 && len(c.Args) > 0 &&
+			(key == "(*sync.Mutex).Lock" || key == "(*sync.RWMutex).Lock" || key == "(*sync.RWMutex).RLock") {
+			e.acquireProtected(fr, st, c.Args[0], pos)
+		}
+		return res
 	case *ssa.MakeClosure:
 		fn := callee.Fn.(*ssa.Function)
 		var fvs []Val
@@ -956,5 +961,68 @@ func (e *Enc) funcTypeConversion(fr *Frame, st *State, in *ssa.ChangeType, x Val
 				}
 			}
 		}
+	}
+}
+
+// acquireProtected: after acquiring mutex field m of an object x, the state declared as
+// protected by x.m is arbitrary (other goroutines may have changed it while the lock was free)
+// up to its invariant; old() of that state now refers to this moment.
+func (e *Enc) acquireProtected(fr *Frame, st *State, recv ssa.Value, pos token.Pos) {
+	fa, ok := recv.(*ssa.FieldAddr)
+	if !ok {
+		return
+	}
+	pt, ok := fa.X.Type().Underlying().(*types.Pointer)
+	if !ok {
+		return
+	}
+	nt, ok := pt.Elem().(*types.Named)
+	if !ok || nt.Obj().Pkg() == nil {
+		return
+	}
+	key := nt.Obj().Pkg().Path() + "." + nt.Obj().Name()
+	fname := pt.Elem().Underlying().(*types.Struct).Field(fa.Field).Name()
+	for _, pd := range e.P.CS.Protects {
+		if pd.Type != key || pd.Field != fname {
+			continue
+		}
+		self, ok := fr.vals[fa.X]
+		if !ok {
+			return
+		}
+		bind := map[string]TV{"self": {Val: self, Ty: fa.X.Type()}}
+		ec := &EvalCtx{e: e, st: st, old: st, bind: bind, spec: pd.Spec}
+		for _, tx := range pd.Targets {
+			t, err := ec.evalModTarget(tx)
+			if err != nil {
+				e.failed = fmt.Errorf("%s:%d: protects: %v", pd.File, pd.Line, err)
+				return
+			}
+			e.havocTarget(st, t)
+		}
+		if pd.Invariant != nil {
+			ec2 := &EvalCtx{e: e, st: st, old: st, bind: bind, spec: pd.Spec}
+			inv, err := ec2.evalBool(pd.Invariant)
+			if err != nil {
+				e.failed = fmt.Errorf("%s:%d: protects invariant: %v", pd.File, pd.Line, err)
+				return
+			}
+			e.assume(st, inv)
+		}
+		// rebase old() for the protected ghost state on this path
+		for _, tx := range pd.Targets {
+			if call, ok := tx.(*SCall); ok {
+				if id, ok := call.Fun.(*SIdent); ok {
+					name := "G_" + id.Name
+					if h, ok := st.heaps[name]; ok {
+						if st.oldOv == nil {
+							st.oldOv = map[string]Val{}
+						}
+						st.oldOv[name] = h
+					}
+				}
+			}
+		}
+		e.abstractions["lock acquisition havocs the state protected by "+key+"."+fname+" (other goroutines) and rebases old() to the acquisition"] = true
 	}
 }
